@@ -128,6 +128,7 @@ type PathState struct {
 	clock    *Term
 	hashApps []hashApp
 	sigApps  []hashApp
+	hashFacts map[[2]int]bool
 	ended    bool
 	killing      bool
 	pendingAbort interface{}
